@@ -96,6 +96,13 @@ class Run:
             found = [([], tr, ev)]
             if not tr.undecided:
                 self.open_tests.append((self.fn, f"{self.label}: {e}"))
+        # a combination that ends in an exception returns nothing: the property says nothing about it
+        alive = [f for f in found if not f[1].raised]
+        if alive:
+            found = alive
+        else:
+            st, f = found[0][1].raised
+            self.open_tests.append((st, f"{self.label}: every evaluated path ends in the `raise` in {f}"))
         self.paths = [(dec, tr) for dec, tr, _ in found]
         idss = [_result_arrays(ctx, self.solver, self.fn, tr) for _, tr in self.paths]
         sigs = [_observable(self.fn, tr, ids) for (_, tr), ids in zip(self.paths, idss)]
@@ -146,9 +153,10 @@ class Run:
                 if c[0] in tr.opaque and id(c[3]) not in seen:
                     seen.add(id(c[3]))
                     out.append((c[3], f"{self.label}: a store through `{c[0]}`, which is bound to `{tr.init.get(c[0])!r}`, cannot be attributed to an array"))
+            out.extend(_untraced(tr, self.label, seen))
         for x in "dva":
             if self.ids[x] not in self.trace.idents:
-                out.append((self.fn, f"{self.label}: no result array `{x}` reaches the solver"))
+                out.append((self.fn, f"{self.label}: the field `{x}` of the solution fsolve returns is not one of the arrays filled on the evaluated path"))
             for c in self.cells_of(x):
                 if is_unknown(c[1]) or is_unknown(c[2]) or isinstance(c[2], tuple):
                     out.append((c[3], f"{self.label}: a store into `{x}` cannot be evaluated ({c[1] if is_unknown(c[1]) else c[2]!r})"))
@@ -183,6 +191,23 @@ class Run:
         return out      # (partition, ident, index, value, node, clock)
 
 
+def _untraced(tr, label, seen=None):
+    """[(node, message)]: writes the evaluated path may make that are not in its trace - a store through a value the evaluator does not know, an
+    array handed to code that was not followed.  With one of these no rule may conclude that an array (or a part of it) was left as it was."""
+    seen = set() if seen is None else seen
+    out = []
+    for node, f, why in tr.lost:
+        if id(node) not in seen:
+            seen.add(id(node))
+            out.append((node, f"{label}: {why} (in {f}): it cannot be attributed to an array"))
+    for node, f, callee, ids in tr.escaped:
+        if id(node) not in seen:
+            seen.add(id(node))
+            what = "a value the evaluator does not know" if ids == ["?"] else "the array(s) " + ", ".join(f"`{i}`" for i in ids if i != "?")
+            out.append((node, f"{label}: `{callee}` (called in {f}) is handed {what} and is not followed: what it stores is missing from the trace"))
+    return out
+
+
 def _classes(solver):
     return [(O.UNC if solver == "SolveUnc" else O.FD, solver), (O.BASE, "_BaseODE")]
 
@@ -191,10 +216,17 @@ def _result_arrays(ctx, solver, fn, trace):
     """identities of the arrays that become the fields d, v, a of the returned solution: read from the call of _solution_freq that ends
     fsolve and from the fields that function fills (the public names sol.d / sol.v / sol.a are the anchor, not the names of locals)"""
     from .sem import split_call, place
-    ids = {x: x for x in "dva"}
+    ids = {x: f"<no array behind the field {x} of the returned solution>" for x in "dva"}
     try:
         rets = trace.returns.get(fn.name) or []
         sc = split_call(rets[-1]) if rets and not is_unknown(rets[-1]) and not isinstance(rets[-1], tuple) else None
+        if sc is not None and sc[0] in S._NAMESPACES:
+            # the solution record is built in fsolve itself (no pre_eig in the evaluated configurations): its fields are the arrays
+            for x in "dva":
+                nm = S.sym_name(sc[2].get(x)) if sc[2].get(x) is not None and not is_unknown(sc[2].get(x)) and not isinstance(sc[2].get(x), tuple) else None
+                if nm is not None and nm in trace.idents:
+                    ids[x] = nm
+            return ids
         if sc is None or not sc[0].endswith("_solution_freq"):
             return ids
         sf = None
@@ -311,6 +343,64 @@ def _check_once(ctx, ok, text, node, detail=None, key=None, tag=None):
     return ok
 
 
+_KNOWN_SYMS = {"freq", "pi", "I", "force", "None", "True", "False", ":", "<what the rows held>"}
+_KNOWN_FNS = {"idx", "solve", "lu_solve", "abs", "tuple", "slice", "not", "invert", "mask:BitAnd", "mask:BitOr", "s_", "star"}
+
+
+def _state_attrs(ctx, solver):
+    """names X for which `self.X` is solver state: assigned through `self.` (or setattr on self) somewhere in the class or its base, or listed in
+    the attribute tables of ode_spaces"""
+    cache = ctx.__dict__.setdefault("_c02_state_attrs", {})
+    if solver not in cache:
+        out = {k.split(".")[1] for t in (O.mode_U(), O.mode_E()) for k in t if k.startswith("self.")}
+        for rel, cls in _classes(solver):
+            for x in ast.walk(ctx.src.mod(rel).tree):
+                if isinstance(x, ast.Attribute) and isinstance(x.ctx, ast.Store) and isinstance(x.value, ast.Name) and x.value.id == "self":
+                    out.add(x.attr)
+        cache[solver] = out
+    return cache[solver]
+
+
+def _foreign(ctx, run, *values):
+    """what a formula mentions that the rule has no meaning for: a name that is neither the frequency, the force, solver state nor an array of
+    the trace (a constant the evaluator could not fold, a parameter, ...) or a call it does not model.  A formula with such an atom cannot be
+    refuted - an identity that does not hold for it is an analysis error, not a violation."""
+    attrs = _state_attrs(ctx, run.solver)
+    out = set()
+
+    def f(kind, name, args):
+        if kind == "s":
+            if name in _KNOWN_SYMS or name in run.trace.idents or name[:1] in "'\"<":
+                return NotImplemented
+            parts = name.split(".")
+            if parts[0] in ("self", "pc") and len(parts) >= 2 and (parts[1] in attrs or parts[0] == "pc"):
+                return NotImplemented
+            out.add(name)
+        elif kind == "fn":
+            if not (name in _KNOWN_FNS or name.startswith(("cmp:", "ax", "attr:", "kw:", "bool:"))):
+                out.add(name + "(...)")
+        return NotImplemented
+    for v in values:
+        if v is None or is_unknown(v) or isinstance(v, tuple):
+            continue
+        try:
+            S.rewrite(v, f)
+        except Unsupported:
+            out.add("<a term the algebra cannot walk>")
+    return sorted(out)
+
+
+def _refutable(ctx, run, ok, text, node, *values):
+    """False (and an analysis error is recorded) when `ok` is False but the compared formulas contain atoms the rule has no meaning for"""
+    if ok:
+        return True
+    bad = _foreign(ctx, run, *values)
+    if bad:
+        ctx.error(f"{text}: the formula contains {', '.join('`' + b + '`' for b in bad)}, which the rule cannot interpret", node, [repr(v) for v in values][:2])
+        return False
+    return True
+
+
 def _zero(v):
     return v is not None and not is_unknown(v) and not isinstance(v, tuple) and need(v).is_zero()
 
@@ -336,11 +426,13 @@ def r1_dynamic_stiffness(ctx):
             if not cs:
                 ctx.error(f"{run.label}: no store into the dynamic (elastic / non-rf) rows of d found", run.fn)
                 continue
-            p, _, ix, val, node, _ = cs[-1]
+            p, _, ix, val, node, clk0 = cs[-1]
             if is_unknown(val) or isinstance(val, tuple):
                 ctx.error(f"{run.label}: displacement formula", node, repr(val))
                 continue
             try:
+                if any(w[1] is None and w[4] > clk0 for w in run.cells_of("d")):
+                    val = _content(run, "d", ix)          # the whole array is updated afterwards (`d *= f`): what the rows hold in the end
                 V = S.erase_idx(val)
                 mm = F.const(1) if m_none else m
                 H = I * W * b + k - W * W * mm
@@ -349,6 +441,9 @@ def r1_dynamic_stiffness(ctx):
                     # modal path: the response of mode j is (row j of ur_inv_v M^-1 F) / (i W - lambda_j), recombined with the displacement rows of ur
                     Q = V * (I * W - lam)
                     ok = Q.diff("freq").is_zero() and not Q.is_zero()      # no gcd in the algebra: d/dfreq = 0 by cross-multiplication
+                    if not _refutable(ctx, run, ok and V.equals(urd * (uriv * (FORCE if m_none else F.fn("lu_solve", F.sym("self.invm"), FORCE))) / (I * W - lam)),
+                                      f"{run.label}: modal response", node, V):
+                        continue
                     ctx.check(ok, f"{run.label}: the only frequency dependence of the modal response is the denominator i W - lambda with W = 2 pi freq", node,
                               None if ok else {"d * (i W - lambda)": repr(Q)})
                     imf = FORCE if m_none else F.fn("lu_solve", F.sym("self.invm"), FORCE)
@@ -363,10 +458,14 @@ def r1_dynamic_stiffness(ctx):
                         continue
                     Hi, rhs = u[1]
                     ok = Hi.equals(H) and rhs.equals(FORCE)
+                    if not _refutable(ctx, run, ok, f"{run.label}: dynamic stiffness", node, Hi, rhs):
+                        continue
                     ctx.check(ok, f"{run.label}: d solves (i W b + k - W^2 m) d = F with W = 2 pi freq", node,
                               None if ok else {"matrix": repr(Hi), "want": repr(H), "rhs": repr(rhs)})
                 else:
                     ok = (V * H).equals(FORCE)
+                    if not _refutable(ctx, run, ok, f"{run.label}: dynamic stiffness", node, V):
+                        continue
                     ctx.check(ok, f"{run.label}: d = F / (i W b + k - W^2 m) with W = 2 pi freq", node,
                               None if ok else {"F/d": repr(FORCE / V) if not V.is_zero() else "d = 0", "want": repr(H)})
             except Unsupported as e:
@@ -377,6 +476,8 @@ def r1_dynamic_stiffness(ctx):
         ca, cc = a.cells("d", DYN), c.cells("d", DYN)
         if ca and cc and not a.problems() and not c.problems():
             ok = _eq(S.erase_idx(ca[-1][3]), S.erase_idx(cc[-1][3]))
+            if not (_refutable(ctx, a, ok, f"{a.label}: per-equation formula", ca[-1][4], ca[-1][3]) and _refutable(ctx, c, ok, f"{c.label}: per-equation formula", cc[-1][4], cc[-1][3])):
+                continue
             ctx.check(ok, f"SolveUnc.fsolve and FreqDirect.fsolve use the same per-equation formula on uncoupled equations (m {'None' if m_none else 'given'})",
                       ca[-1][4], None if ok else {"SolveUnc": repr(ca[-1][3]), "FreqDirect": repr(cc[-1][3])})
 
@@ -431,6 +532,47 @@ def _forward(run, val, before, depth=0):
     return S.rewrite(val, f)
 
 
+def _row_selector(ix):
+    """(rows, columns ...) -> rows;  anything else -> itself"""
+    u = unfn(ix) if ix is not None and not is_unknown(ix) else None
+    if u is not None and u[0] == "tuple" and u[1] and not isinstance(u[1][0], str) and S.sym_name(u[1][0]) != ":":
+        return u[1][0]
+    return ix
+
+
+def _content(run, letter, ix, before=None, depth=0):
+    """what the rows `ix` of a result array hold just before the clock `before` (None: when fsolve returns): the value last stored on exactly these
+    rows or on the whole array, with the read-backs of d, v, a in it resolved the same way at the time of that store; a store on the whole array
+    written in terms of an array (`x *= f`) is applied to what the rows of that array held"""
+    if depth > 8:
+        raise Unsupported("read-backs nested too deeply")
+    ident = run.ids[letter]
+    hit = None
+    for c in run.trace.cells_of(ident):
+        if before is not None and c[4] >= before:
+            continue
+        if c[1] is None or (ix is not None and not is_unknown(c[1]) and _eq(c[1], ix)):
+            hit = c
+    if hit is None:
+        init = run.trace.init.get(ident)
+        if _zero(init):
+            return init
+        return F.sym(ident) if ix is None else F.fn("idx", F.sym(ident), ix)
+    if is_unknown(hit[2]) or isinstance(hit[2], tuple) or hit[2] is None:
+        raise Unsupported("a stored value that is not known")
+    letters = {i: x for x, i in run.ids.items()}
+
+    def f(kind, name, args):
+        if kind == "fn" and name == "idx" and len(args) == 2 and not isinstance(args[0], str) and not isinstance(args[1], str):
+            nm = S.sym_name(args[0])
+            if nm in letters:
+                return _content(run, letters[nm], args[1], hit[4], depth + 1)
+        if kind == "s" and hit[1] is None and name in letters:
+            return _content(run, letters[name], ix, hit[4], depth + 1)
+        return NotImplemented
+    return S.rewrite(hit[2], f)
+
+
 def _freq_mask(ctx, run, M, node, which):
     """the frequency selection of a rigid-body write must be `W != 0`: one obligation"""
     u = unfn(M) if M is not None and not is_unknown(M) else None
@@ -480,6 +622,9 @@ def r2_derivative_relations(ctx):
                 for p, ix in dparts:
                     dclk = max(d[4] for d in run.cells_of("d") if d[1] is not None and not is_unknown(d[1]) and _eq(d[1], ix))
                     cs = [c for c in run.cells_of(which) if c[1] is not None and not is_unknown(c[1]) and _eq(c[1], ix)]
+                    if not cs and not _eq(_row_selector(ix), ix):
+                        # d was stored column by column (rows, column): a store on all columns of the same rows, made afterwards, covers them
+                        cs = [c for c in run.cells_of(which) if c[1] is not None and not is_unknown(c[1]) and _eq(c[1], _row_selector(ix)) and c[4] > dclk]
                     if not cs:
                         # a store on the whole array after the displacement of these rows is known covers them
                         cs = [c for c in run.cells_of(which) if c[1] is None and c[4] > dclk]
@@ -493,16 +638,30 @@ def r2_derivative_relations(ctx):
                     if is_unknown(val) or isinstance(val, tuple):
                         ctx.error(f"{run.label}: {txt}", c[3], repr(val))
                         continue
-                    ok = any(_eq(val, factor * D) for D in _d_candidates(run, c[1], c[4]))
-                    if not ok:
+                    # (an update of a whole array made afterwards - `v *= f`, `d[:] = ...` - changes what these rows hold)
+                    later = [w for w in run.cells_of(which) if w[1] is None and w[4] > c[4]] + [w for w in run.cells_of("d") if w[1] is None and w[4] > max(dclk, c[4])]
+                    ok = not later and any(_eq(val, factor * D) for D in _d_candidates(run, c[1], c[4]))
+                    if not ok and not later:
                         # written through another stored response (a = i W v): compare with every read-back resolved
                         try:
                             d0 = run.sym("d") if c[1] is None else F.fn("idx", run.sym("d"), c[1])
                             ok = _eq(_forward(run, val, c[4]), factor * _forward(run, d0, c[4]))
                         except Unsupported:
                             ok = False
+                    if not ok:
+                        # what the rows of both arrays hold in the end, every store and read-back applied in order
+                        try:
+                            got = _content(run, which, c[1] if c[1] is not None else ix)
+                            ok = _eq(got, factor * _content(run, "d", ix))
+                            if later:
+                                val = got
+                        except Unsupported:
+                            ok = False
+                    at = max(later, key=lambda w: w[4])[3] if later and not ok else c[3]
+                    if not _refutable(ctx, run, ok, f"{run.label}: {txt}", at, val):
+                        continue
                     _check_once(ctx, ok, f"{run.label}: {txt} on the rows `{S.sym_name(ix) or repr(ix)}` ({'residual-flexibility' if p == 'RF' else 'dynamic'} equations), "
-                                    "from the displacement stored on the same rows", c[3], None if ok else {which: repr(val)}, tag=which)
+                                    "from the displacement stored on the same rows", at, None if ok else {which: repr(val)}, tag=which)
             if run.solver != "SolveUnc":
                 continue
             # ---- rigid-body rows: the acceleration is primary; v = a / (i W), d = -a / W^2 wherever W != 0, zero at 0 Hz
@@ -550,6 +709,8 @@ def r2_derivative_relations(ctx):
                     ok = S.erase_idx(f0[2]).equals(want)
                 except Unsupported as e:
                     ctx.error(f"{run.label}: rigid-body {which}", f0[3], str(e))
+                    continue
+                if not _refutable(ctx, run, ok, f"{run.label}: rigid-body {txt}", f0[3], f0[2], A):
                     continue
                 _check_once(ctx, ok, f"{run.label}: rigid-body {txt} (from the acceleration stored on the same rows)", f0[3], None if ok else {which: repr(f0[2]), "a": repr(A)},
                             tag=("rb", which))
@@ -618,20 +779,40 @@ def _incrb_table(present):
     return t
 
 
-def _rb_state(run, letter):
-    """what the configuration leaves in the rigid-body rows of one result array: ('filled', node) | ('zero', node) | ('untouched', None)
-    The rb rows are also part of the non-rf rows: a later store on those (FreqDirect solves all non-rf equations at once) fills them."""
-    last = None
-    for p, _, ix, val, node, clk in run.cells(letter, ("RB", "K", "ALL")):
-        last = (p, val, node)
-    if last is None:
-        return "untouched", None
-    p, val, node = last
-    if is_unknown(val):
-        return "unknown", node
-    if _zero(val):
-        return "zero", node
-    return "filled", node
+def _rb_state(run, letter, parts=("RB", "K", "ALL")):
+    """what the configuration leaves in the rigid-body rows (or the rows of the partitions `parts`) of one result array:
+    ('filled' | 'zero' | 'untouched' | 'unknown', node).
+    The rb rows are also part of the non-rf rows: a later store on those (FreqDirect solves all non-rf equations at once) fills them.  A store on
+    the whole array that is written in terms of the array itself (`x *= f`, `x[:] = g(x)`) is applied to what the rows held before."""
+    state, at = "untouched", None
+    me = run.sym(letter)
+    for p, _, ix, val, node, clk in run.cells(letter, parts):
+        if is_unknown(val) or isinstance(val, tuple) or val is None:
+            state, at = "unknown", node
+            continue
+        try:
+            if p == "ALL" and S.sym_name(me) in _symbols(val):
+                if state == "unknown":
+                    at = node
+                    continue
+                if _eq(val, me):
+                    continue                      # x[:] = x, x += 0: nothing changes
+                before = F.const(0) if state in ("zero", "untouched") else F.sym("<what the rows held>")
+                val = S.rewrite(val, lambda kind, name, args: before if kind == "s" and name == S.sym_name(me) else NotImplemented)
+        except Unsupported:
+            state, at = "unknown", node
+            continue
+        state, at = ("zero" if _zero(val) else "filled"), node
+    return state, at
+
+
+def _state_is(ctx, run, states, want, text, node, key=None):
+    """one obligation on the state(s) of rigid-body rows; a state that could not be determined is an analysis error, never a verdict"""
+    if any(st == "unknown" for _, st in states):
+        ctx.error(f"{text}: what the rows hold could not be determined", node, states)
+        return
+    ok = all(st in want for _, st in states)
+    ctx.check(ok, text, node, None if ok else (states[0][1] if len(states) == 1 else [list(x) for x in states]), key=key)
 
 
 def r3_option_gating(ctx):
@@ -641,8 +822,7 @@ def r3_option_gating(ctx):
             continue
         for x in _LETTERS:
             st, node = _rb_state(allin, x)
-            ok = st == "filled"
-            ctx.check(ok, f"{allin.label}: with `{x}` in incrb the rigid-body rows of {x} hold the computed response", node or allin.fn, None if ok else st,
+            _state_is(ctx, allin, [(x, st)], ("filled",), f"{allin.label}: with `{x}` in incrb the rigid-body rows of {x} hold the computed response", node or allin.fn,
                       key=f"C02-R3|{famkey}|{x} in incrb")
         for x in _LETTERS:
             present = tuple(y for y in _LETTERS if y != x)
@@ -650,42 +830,47 @@ def r3_option_gating(ctx):
             if not _usable(ctx, run):
                 continue
             st, node = _rb_state(run, x)
-            ok = st in ("zero", "untouched")
-            ctx.check(ok, f"{run.label}: without `{x}` in incrb the rigid-body rows of {x} are zero", node or run.fn, None if ok else st,
+            _state_is(ctx, run, [(x, st)], ("zero", "untouched"), f"{run.label}: without `{x}` in incrb the rigid-body rows of {x} are zero", node or run.fn,
                       key=f"C02-R3|{famkey}|{x} not in incrb")
             others = [(y, _rb_state(run, y)[0]) for y in present]
-            ok = all(s == "filled" for _, s in others)
-            ctx.check(ok, f"{run.label}: leaving `{x}` out of incrb does not remove the rigid-body rows of the other responses", run.fn, None if ok else others,
+            _state_is(ctx, run, others, ("filled",), f"{run.label}: leaving `{x}` out of incrb does not remove the rigid-body rows of the other responses", run.fn,
                       key=f"C02-R3|{famkey}|{x} not in incrb: others")
         run = _run(ctx, famkey, False, _incrb_table(()), tag="incrb = ''")
         if _usable(ctx, run):
             sts = [(x, _rb_state(run, x)[0]) for x in _LETTERS]
-            ok = all(s in ("zero", "untouched") for _, s in sts)
-            ctx.check(ok, f"{run.label}: with an empty incrb no rigid-body response is returned", run.fn, None if ok else sts, key=f"C02-R3|{famkey}|empty incrb")
+            _state_is(ctx, run, sts, ("zero", "untouched"), f"{run.label}: with an empty incrb no rigid-body response is returned", run.fn, key=f"C02-R3|{famkey}|empty incrb")
         # residual-flexibility rows: d always (static solution); v and a only without rf_disp_only
         run = _run(ctx, famkey, False, {"rf_disp_only": True}, tag="rf_disp_only")
+        RFP = ("RF", "ALL")
         if _usable(ctx, run):
-            dc = [c for c in run.cells("d", ("RF",)) if not _zero(c[3])]
-            ctx.check(bool(dc), f"{run.label}: the static rf displacement is computed regardless of rf_disp_only", dc[-1][4] if dc else run.fn)
-            va = [(x, c) for x in ("v", "a") for c in run.cells(x, ("RF", "ALL")) if not _zero(c[3])]
-            ok = not va
-            ctx.check(ok, f"{run.label}: with rf_disp_only the rf rows of v and a stay zero", va[0][1][4] if va else run.fn,
-                      None if ok else [(x, repr(c[3])) for x, c in va], key=f"C02-R3|{famkey}|rf_disp_only")
+            st, node = _rb_state(run, "d", RFP)
+            _state_is(ctx, run, [("d", st)], ("filled",), f"{run.label}: the static rf displacement is computed regardless of rf_disp_only", node or run.fn)
+            sts = [(x,) + _rb_state(run, x, RFP) for x in ("v", "a")]
+            at = next((n for _, s_, n in sts if s_ not in ("zero", "untouched") and n is not None), run.fn)
+            _state_is(ctx, run, [(x, s_) for x, s_, _ in sts], ("zero", "untouched"), f"{run.label}: with rf_disp_only the rf rows of v and a stay zero", at,
+                      key=f"C02-R3|{famkey}|rf_disp_only")
         for x in ("v", "a"):
-            cs = [c for c in allin.cells(x, ("RF",)) if not _zero(c[3])]
-            ctx.check(bool(cs), f"{allin.label}: without rf_disp_only the rf rows of {x} are derived from the static displacement", cs[-1][4] if cs else allin.fn,
-                      key=f"C02-R3|{famkey}|rf {x}")
+            st, node = _rb_state(allin, x, RFP)
+            _state_is(ctx, allin, [(x, st)], ("filled",), f"{allin.label}: without rf_disp_only the rf rows of {x} are derived from the static displacement",
+                      node or allin.fn, key=f"C02-R3|{famkey}|rf {x}")
     # the option string reaches the solvers unchanged
+    # (every test the function makes on the string is taken both ways; a combination that ends in a `raise` hands nothing on)
     fn = ctx.src.func(UTIL, "_process_incrb")
-    cfg = {"isinstance(incrb, str)": True}
-    tr, ev = S.run_entry(ctx, fn, cfg, S.Opts(), "_process_incrb")
-    rets = tr.returns.get(fn.name) or []
-    hard = [t for t, f in tr.undecided]
-    if hard or not rets:
-        ctx.error("_process_incrb: string form", fn, [ast.unparse(t) for t in hard])
+    cfg = {"isinstance(incrb, str)": True, "type(incrb) is str": True}
+    try:
+        found = S.explore(ctx, fn, cfg, S.Opts())
+    except Unsupported as e:
+        ctx.error("_process_incrb: string form", fn, str(e))
+        return
+    alive = [(dec, tr) for dec, tr, _ in found if not tr.raised]
+    hard = [ast.unparse(t) if not isinstance(t, ast.stmt) else type(t).__name__ for _, tr in alive for t, f in tr.undecided]
+    hard += [msg for _, tr in alive for _, msg in _untraced(tr, "_process_incrb")]
+    rets = [(tr.returns.get(fn.name) or [None])[-1] for _, tr in alive]
+    if hard or not alive or any(r is None or is_unknown(r) or isinstance(r, tuple) for r in rets):
+        ctx.error("_process_incrb: string form", fn, hard or [repr(r) for r in rets])
     else:
-        ok = _eq(rets[-1], F.sym("incrb"))
-        ctx.check(ok, "_process_incrb: the string form of incrb is handed on unchanged", fn, None if ok else repr(rets[-1]))
+        bad = [r for r in rets if not _eq(r, F.sym("incrb"))]
+        ctx.check(not bad, "_process_incrb: the string form of incrb is handed on unchanged", fn, None if not bad else repr(bad[0]))
 
 
 # ------------------------------------------------------------------------------------------------ R4
@@ -789,8 +974,24 @@ def _psd_run(ctx, fn, present, env=None, opts=None):
 def _psd_paths(ctx, fn):
     cache = ctx.__dict__.setdefault("_c02_psd_paths", {})
     if id(fn) not in cache:
-        cache[id(fn)] = list(S.enumerate_paths(ctx, fn, {}, _psd_opts(), cfg_cls=_PsdFork))
+        found = list(S.enumerate_paths(ctx, fn, {}, _psd_opts(), cfg_cls=_PsdFork))
+        cache[id(fn)] = [(dec, tr) for dec, tr in found if not tr.raised] or found      # (a path that ends in an exception returns nothing)
     return cache[id(fn)]
+
+
+def _psd_untraced(ctx, paths):
+    """solvepsd: a write the evaluated paths may make that is not in their trace, a statement that is not lowered: no verdict (analysis error)"""
+    seen, bad = set(), []
+    for _, tr in paths:
+        bad.extend(_untraced(tr, "solvepsd", seen))
+        for t, f in tr.undecided:
+            if id(t) not in seen:
+                seen.add(id(t))
+                bad.append((t, f"solvepsd: a `{type(t).__name__.lower()}` statement in {f} is not lowered" if isinstance(t, ast.stmt) else
+                            f"solvepsd: the test `{ast.unparse(t)}` in {f} cannot be evaluated"))
+    for node, msg in bad:
+        ctx.error(msg, node)
+    return bool(bad)
 
 
 def _psd_ids(trace, fn):
@@ -811,9 +1012,37 @@ def _psd_increment(trace, pid, fn):
     return need(c[2]) - F.fn("idx", F.sym(pid), c[1]), c[1], c[3]
 
 
+def _psd_foreign(fn, trace, *values):
+    """atoms of a solvepsd formula the rule has no meaning for: names that are not parameters of the function, arrays / counters of the trace or
+    the symbols of the generic grid; calls other than the solver's fsolve"""
+    params = {a.arg for a in fn.args.posonlyargs + fn.args.args + fn.args.kwonlyargs} | {fn.args.kwarg.arg if fn.args.kwarg else "kwargs"}
+    out = set()
+
+    def f(kind, name, args):
+        if kind == "s":
+            root = name.split(".")[0]
+            if name in _KNOWN_SYMS or name in trace.idents or name[:1] in "'\"<" or root in params or (len(name) == 2 and name[0] in "fp" and name[1].isdigit()):
+                return NotImplemented
+            out.add(name)
+        elif kind == "fn":
+            if not (name in _KNOWN_FNS or name.startswith(("cmp:", "ax", "attr:", "kw:", "bool:")) or name.endswith("fsolve")):
+                out.add(name + "(...)")
+        return NotImplemented
+    for v in values:
+        if v is None or is_unknown(v) or isinstance(v, tuple):
+            continue
+        try:
+            S.rewrite(v, f)
+        except Unsupported:
+            out.add("<a term the algebra cannot walk>")
+    return sorted(out)
+
+
 def r5_solvepsd(ctx):
     fn = ctx.src.func(UTIL, "solvepsd")
     paths = _psd_paths(ctx, fn)
+    if _psd_untraced(ctx, paths):
+        return
     psd_id = _psd_ids(paths[0][1], fn)[1]
     if psd_id is None:
         ctx.error("solvepsd: returns (rms, psd), the psd list being filled per recovery entry", fn)
@@ -866,8 +1095,18 @@ def r5_solvepsd(ctx):
             return
         nodes = (node, ix, fi)
         if not _eq(inc, want) and bad is None:
+            odd = _psd_foreign(fn, tr, inc)
+            if odd:
+                ctx.error(f"solvepsd: the accumulated term contains {', '.join('`' + b + '`' for b in odd)}, which the rule cannot interpret", node, repr(inc))
+                return
             bad = {"increment": repr(inc), "want": repr(want), "path": [f"{v!r} is {b}" for v, b in dec]}
     ok, unode, detail = state.get("unit", (False, fn, None))
+    if not ok and "unit" in state:
+        calls = [c for c in acc_paths[0][1].calls if c[0].endswith(".fsolve") or c[0] == "fsolve"]
+        odd = _psd_foreign(fn, acc_paths[0][1], *(calls[0][1][:2] if calls else []))
+        if odd:
+            ctx.error(f"solvepsd: the arguments of fsolve contain {', '.join('`' + b + '`' for b in odd)}, which the rule cannot interpret", unode, detail)
+            return
     ctx.check(ok, "solvepsd: one unit-amplitude FRF per force: fsolve(t_frc[:, i] at every frequency, freq)", unode, None if ok else detail)
     if not ok or nodes is None:
         return
@@ -890,6 +1129,9 @@ def r5_solvepsd(ctx):
             ctx.error(f"solvepsd: accumulation when entry {k} of a drmlist tuple is None ({e})", node2)
             continue
         ok = _eq(inc2, want2)
+        if not ok and _psd_foreign(fn, t2, inc2):
+            ctx.error(f"solvepsd: accumulation when entry {k} of a drmlist tuple is None: the term contains atoms the rule cannot interpret", node2, repr(inc2))
+            continue
         ctx.check(ok, f"solvepsd: a None in position {k} of a drmlist entry drops exactly the term `{names[k]}`", node2, None if ok else {"increment": repr(inc2), "want": repr(want2)})
     # ---- rms^2 = trapezoidal area of the PSD over the frequency vector: evaluated on a generic 4-point grid (symbolic f0..f3, p0..p3)
     NF = 4
@@ -919,6 +1161,9 @@ def r5_solvepsd(ctx):
         detail = None if ok else {"rms^2": repr(val * val), "trapezoid": repr(want)}
     except Unsupported as e:
         ok, detail = False, str(e)
+    if not ok and _psd_foreign(fn, t3, val):
+        ctx.error("solvepsd: rms formula: it contains atoms the rule cannot interpret", cs[-1][3], repr(val))
+        return
     ctx.check(ok, "solvepsd: rms^2 = sum_k (f_{k+1} - f_k)(p_k + p_{k+1})/2 on a generic non-uniform grid (trapezoidal area)", cs[-1][3], detail)
     # the area stored in rms[j] is that of psd[j]
     last_store = max((c[4] for c in t3.cells_of(psd_id)), default=0)
@@ -927,6 +1172,10 @@ def r5_solvepsd(ctx):
     if loads and rix is not None and not is_unknown(rix):
         ok = all(_eq(l, rix) for l in loads)
         ctx.check(ok, "solvepsd: rms[j] is the area of psd[j] (same list position)", cs[-1][3], None if ok else {"rms index": repr(rix), "psd indices": [repr(l) for l in loads]})
+    elif ok and not loads and (rix is None or S.sym_name(rix) in t3.loop_syms):
+        # the area above is that of the generic entry of the psd list, taken in list order (a comprehension / a loop over the list itself): the
+        # positions agree by construction
+        ctx.ok("solvepsd: rms[j] is the area of psd[j] (same list position)", cs[-1][3])
 
 
 # ------------------------------------------------------------------------------------------------ R6
@@ -988,6 +1237,8 @@ def r7_every_force_counts(ctx):
     i.e. the iteration was left because that PSD vanishes."""
     fn = ctx.src.func(UTIL, "solvepsd")
     paths = _psd_paths(ctx, fn)
+    if _psd_untraced(ctx, paths):
+        return
     info = []
     for dec, tr in paths:
         pid = _psd_ids(tr, fn)[1]
